@@ -3,12 +3,13 @@ package main
 import (
 	"bytes"
 	"path/filepath"
+	"regexp"
 
-	"github.com/huderlem/poryscript/parser"
 	"crypto/sha1"
+	"fmt"
+	"github.com/huderlem/poryscript/parser"
 	"os"
 	"os/exec"
-	"fmt"
 	"sort"
 	"strings"
 	"sync"
@@ -589,12 +590,61 @@ func dataSectionStart(out string, nt, texts []Top) int {
 
 // nonBlank drops empty lines: how many blank lines separate the blocks of two statements is
 // layout, not part of the independence property.
+// nonBlank drops blank lines and puts the blocks of the output into a canonical order: the
+// property is about the code emitted for a statement, not about where in the file it lands.  A
+// block starts at a label written at column 0 (an '.align' line directly before it belongs to it);
+// whatever precedes the first label stays in front.  Blocks are ordered by their label.
+var reTopLabel = regexp.MustCompile(`^[^\s#@.][^\s]*:{1,2}\s*$`)
+
 func nonBlank(ls []string) []string {
-	out := []string{}
+	var kept []string
 	for _, l := range ls {
 		if strings.TrimSpace(l) != "" {
-			out = append(out, l)
+			kept = append(kept, strings.TrimRight(l, "\r"))
 		}
+	}
+	type block struct {
+		label string
+		lines []string
+	}
+	var head []string
+	var blocks []*block
+	for i := 0; i < len(kept); i++ {
+		l := kept[i]
+		isLab := reTopLabel.MatchString(l)
+		if isLab && len(blocks) > 0 {
+			// a generated sub-label of the script whose block this is stays inside the block
+			// (chunk order and fall-through are part of the script's code)
+			name := strings.TrimRight(strings.TrimSpace(l), ":")
+			base := strings.TrimRight(strings.TrimSpace(blocks[len(blocks)-1].label), ":")
+			if m := reGenSuffix.FindStringSubmatch(name); m != nil && m[1] == base {
+				isLab = false
+			}
+		}
+		startsBlock := isLab ||
+			(strings.HasPrefix(strings.TrimSpace(l), ".align") && i+1 < len(kept) && reTopLabel.MatchString(kept[i+1]))
+		if startsBlock {
+			lab := l
+			if !reTopLabel.MatchString(l) {
+				lab = kept[i+1]
+			}
+			blocks = append(blocks, &block{label: lab, lines: []string{l}})
+			if lab != l {
+				i++
+				blocks[len(blocks)-1].lines = append(blocks[len(blocks)-1].lines, kept[i])
+			}
+			continue
+		}
+		if len(blocks) == 0 {
+			head = append(head, l)
+		} else {
+			blocks[len(blocks)-1].lines = append(blocks[len(blocks)-1].lines, l)
+		}
+	}
+	sort.SliceStable(blocks, func(a, b int) bool { return blocks[a].label < blocks[b].label })
+	out := append([]string{}, head...)
+	for _, b := range blocks {
+		out = append(out, b.lines...)
 	}
 	return out
 }
